@@ -3,7 +3,7 @@
 Program = {"config": S|E|U, "main": block, "ext": [[cycle, action...]]}
 block = [stmt...]; stmt (JSON lists):
  ["yield", k] | ["sleep", d] | ["wait", ev] | ["set", ev] | ["forever"]
- ["scope", name, shield, rel_deadline|None, body]        with CancelScope(...)
+ ["scope", name, shield, rel_deadline|None, body(, True)]  with CancelScope(...)  (True: cancel() before entering)
  ["cancel", name]                                         scope / group / child handle known by that name
  ["shield", name, bool]                                   host task toggles the shield of one of its own active scopes
  ["group", name, body]                                    async with create_task_group()
@@ -124,6 +124,8 @@ class World:
         self.guards = []          # (expiry cycle, CancelScope)
         self.children = {}        # child name -> ChildInfo
         self.native_targets = set()
+        self.native_count = {}         # task -> number of native Task.cancel() calls issued by the harness
+        self.tainted = set()           # tasks whose count is no longer attributable (CPython TaskGroup quirk)
         self.latencies = []
         self.finished = False
         self.ext = sorted((e for e in case.get("ext", [])), key=lambda e: e[0])
@@ -204,6 +206,7 @@ class World:
                     and not ci.native_cancelled:
                 ci.native_cancelled = True
                 self.native_targets.add(ci.task)
+                self.native_count[ci.task] = self.native_count.get(ci.task, 0) + 1
                 self.stats["native_cancel"] += 1
                 # undecided by the statement (AnyIO documents treating such chained cancellations as its own): the
                 # native cancellation lands while the task handles an AnyIO cancellation, or while an AnyIO
@@ -446,22 +449,29 @@ class World:
 
     def residue_check(self, m, task, what):
         """C05(1): with no cancelled scope left anywhere above, the native cancel count must be back to 0."""
-        if task in self.native_targets or getattr(self.loop, "failed", None):
+        if task in self.tainted or getattr(self.loop, "failed", None):
             return
+        expected = self.native_count.get(task, 0)      # the harness' own native requests are never undone
         if any(fired() for fired in self.native_stack.get(task, ())):
             return      # an enclosing asyncio.timeout / TaskGroup has requested a native cancellation of its own
         parent = m.parent
         if parent is None or not parent.any_cancelled_above():
             self.stats["residue_checked"] += 1
-            if task.cancelling() != 0:
-                self.bad("c05:cancelling-residue", what,
-                         f"after leaving {m.name}: Task.cancelling() == {task.cancelling()} with no cancelled scope above")
+            if expected:
+                self.stats["residue_checked_with_native_request"] += 1
+            if task.cancelling() != expected:
+                self.bad("c05:cancelling-residue", what if not expected else what + "+native",
+                         f"after leaving {m.name}: Task.cancelling() == {task.cancelling()} (expected {expected}: the "
+                         f"native requests of the harness) with no cancelled scope above")
 
     async def run_scope(self, st, ms):
-        _, name, shield, rel, body = st
+        _, name, shield, rel, body = st[:5]
         task = asyncio.current_task()
         deadline = math.inf if rel is None or not self.virtual else self.loop.time() + rel
         real = CancelScope(shield=shield, deadline=deadline)
+        if len(st) > 5 and st[5]:
+            real.cancel()          # cancelled before it is entered
+            self.stats["scope_cancelled_before_entry"] += 1
         m = Mirror(real, ms, name, task)
         arrived = left = None
         try:
@@ -617,6 +627,7 @@ class World:
                 # CPython 3.12.1's TaskGroup can leave Task.cancelling() raised after it cancelled its parent:
                 # the count of this task is no longer attributable to AnyIO
                 self.native_targets.add(task)
+                self.tainted.add(task)
 
     # ---- task groups (C01/C02/C07)
     async def run_group(self, st, ms):
@@ -983,9 +994,9 @@ class _Return(Exception):
         self.value = value
 
 
-STAT_KEYS = ["deadline_reassigned", "native_cancel", "native_cancel_at_group_join", "cancel_external", "cancel_self", "cancel_sibling", "cancel_handle",
+STAT_KEYS = ["scope_cancelled_before_entry", "deadline_reassigned", "native_cancel", "native_cancel_at_group_join", "cancel_external", "cancel_self", "cancel_sibling", "cancel_handle",
              "op_entered_cancelled", "interrupted_after_blocking", "guard_fired", "shield_toggled", "absorbed",
-             "propagated", "exit_with_cancellation_in_flight", "residue_checked", "caught", "native_timeout",
+             "propagated", "exit_with_cancellation_in_flight", "residue_checked", "residue_checked_with_native_request", "caught", "native_timeout",
              "native_timeout_fired", "native_taskgroup", "spawn_into_cancelled_group", "group_waited_for_children",
              "group_with_2plus_raisers", "start_calls", "start_caller_cancelled",
              "start_child_raised_after_caller_cancelled", "start_returned", "start_child_cancelled",
